@@ -140,12 +140,15 @@ def register_draw(rep, mir, L):
         for (mm, k, v) in outs:
             if k != 'ret': bad.append(('panic', str(v))); continue
             good = L.get('DrawGradCollector', mm.mem[c], 'is_good')
-            want = z3.Or(idx > 4, idx < -4) if div else idx != 0
-            s = z3.Solver(); s.add(*mm.pc); s.add(z3.Not(_b(good) == want))
+            # "divergent or stuck draws are not counted": a stuck draw (index 0) is never counted, a moved non-divergent draw always is, a divergent draw
+            # close to the start (|index| <= 4, the code's own notion of close) is not; divergent draws further away may be counted or not
+            if div: viol = z3.And(idx >= -4, idx <= 4, _b(good))
+            else: viol = z3.Not(_b(good) == (idx != 0))
+            s = z3.Solver(); s.add(*mm.pc); s.add(viol)
             if s.check() != z3.unsat: bad.append(('is_good wrong', div, str(s.model())))
     rep.paths += n; rep.absorb_vm(vm)
     if bad: rep.violated('C05.5 register_draw', 'register_draw.is_good', 'mass-matrix collector accepts a draw it must reject (or vice versa): %s' % (bad[0],), model={'problems': [str(b) for b in bad]})
-    else: rep.holds('C05.5 DrawGradCollector::register_draw: is_good = (|idx| > 4) on divergent draws, idx != 0 otherwise (%d paths)' % n)
+    else: rep.holds('C05.5 DrawGradCollector::register_draw: never counts a stuck draw or a divergent draw within 4 steps of the start, always counts a moved non-divergent draw (%d paths)' % n)
 
 def _b(v): return z3.BoolVal(v) if isinstance(v, bool) else v
 
@@ -218,7 +221,8 @@ def flow_collector(rep, mir, L):
                     took = len(g('draws').items) == 1
                     if len(g('draws').items) != len(g('grads').items) or len(g('draws').items) != len(g('logps').items): bad.append((meth, 'draws / grads / logps get out of step'))
                     want = z3.And(z3.BoolVal(active and not div), A.is_finite(ee), z3.Not(A.lt(mx, ee)) if hasattr(A, 'lt') else z3.Not(z3.fpGT(ee.v, mx.v)), fp, fg)
-                    s = z3.Solver(); s.set('timeout', 60000); s.add(*mm.pc); s.add(z3.BoolVal(took) != want)
+                    s = z3.Solver(); s.set('timeout', 60000); s.add(*mm.pc); s.add(z3.Not(z3.fpEQ(ee.v, mx.v)))     # an energy error exactly at the limit may go either way
+                    s.add(z3.BoolVal(took) != want)
                     r = s.check()
                     if r == z3.sat: bad.append((meth, 'orbit' if orbit else 'draws', 'a point is collected although it is divergent / has a non-finite or too large energy error / non-finite position or gradient - or a good point is dropped', str(s.model())[:160]))
                     elif r == z3.unknown: rep.unknown('C05.7 flow collector %s' % meth, 'solver unknown')
